@@ -113,6 +113,9 @@ def dnsSimStep (v0 : Bool) (_ : Unit) (ws : List String) : Unit × String :=
         | .ok none => "noreply"
         | .error e => errStr e)
     | none => ((), "bad-op")
+  | ["cli", _, "noreply"] => ((), match (if v0 then Dns.clientNoAnswerV0 else Dns.clientNoAnswer) with
+      | .ok _ => "err"
+      | .error e => errStr e)
   | ["cli", n, h] => match Driver.parseHex n, Driver.parseHex h with
     | some name, some bs => ((), match (if v0 then Dns.clientHandleV0 else Dns.clientHandle) name bs with
         | .ok (some ip) => s!"ip {ip}"
@@ -165,8 +168,12 @@ def dhcpStep (I : DhcpImpl) (_ : Unit) (ws : List String) : Unit × String :=
   | ["demux", h] => match Driver.parseHex h with
     | some bs => ((), showDemux (I.clientDemux bs))
     | none => ((), "bad-op")
-  | ["sdemux", f, h, _pool] => match Driver.parseHex h with
-    | some bs => ((), showDemux (I.serverDemux (if f == "-" then none else f.toNat?) bs))
+  | ["sdemux", f, h, pool] => match Driver.parseHex h with
+    | some bs =>
+      -- returning the one address the pool already holds changes nothing observable
+      ((), match I.serverDemux (if f == "-" then none else f.toNat?) bs with
+        | .ok (.released ip) => if pool.toNat? == some ip then "none" else s!"released {ip}"
+        | r => showDemux r)
     | none => ((), "bad-op")
   | ["enc", op, ht, hl, hp, xid, secs, fl, ci, yi, si, ri, ch, mt, sn, bf, rest] =>
     match op.toNat?, ht.toNat?, hl.toNat?, hp.toNat?, xid.toNat?, secs.toNat?, fl.toNat?, ci.toNat?,
